@@ -315,4 +315,12 @@ theorem segment_file_name_tie (base : APath) (idx : Nat) :
 
 theorem install_check_tie : KeysSrc.install_name_checked = true := rfl
 
+/-! ### helper for Props/C20.index_tmp_confined -/
+
+theorem splitLastDot_append (x y : Comp) (hy : '.' ∉ y) :
+    splitLastDot (x ++ '.' :: y) = some (x, y) := by
+  induction x with
+  | nil => simp [splitLastDot, splitLastDot_none_of_not_mem y hy]
+  | cons c r ih => simp [splitLastDot, ih]
+
 end Cascette.Proofs.KeysTie
